@@ -1222,3 +1222,307 @@ fn t20_cyclic_chain() {
     if let Some(p) = chain.first() { let mut t = p.clone(); t.public_inputs[8] += F::ONE; cases += 1; if step(true, &t, &real_vk).is_ok() { bad.push("chain step over an inner proof with altered counter accepted".into()); } }
     finish("t20_cyclic_chain", cases, bad);
 }
+
+// ---- C02 / C08: adversarial witnesses ----
+// A corrupted assignment is handed to the ordinary proving protocol (prove_with_partition_witness runs no consistency check of its own
+// in this configuration). `violates` is an independent oracle: it re-evaluates every gate of every row natively, re-checks every copy class
+// of the ORIGINAL circuit and (for lookups) nothing else; a corruption that still satisfies the circuit is not a case.
+struct Adv<'a> {
+    data: &'a CircuitData<F, PC, D>,
+    values: Vec<Option<F>>,       // per representative
+    map: Vec<usize>,              // target index -> representative (possibly altered)
+}
+
+impl<'a> Adv<'a> {
+    fn new(data: &'a CircuitData<F, PC, D>, pw: PartialWitness<F>) -> Option<Self> {
+        let w = crate::iop::generator::generate_partial_witness(pw, &data.prover_only, &data.common).ok()?;
+        Some(Adv { data, values: w.values.clone(), map: data.prover_only.representative_map.clone() })
+    }
+    fn tindex(&self, t: crate::iop::target::Target) -> usize { t.index(self.data.common.config.num_wires, self.data.common.degree()) }
+    fn get(&self, t: crate::iop::target::Target) -> F { self.values[self.map[self.tindex(t)]].unwrap_or(F::ZERO) }
+    /// change the value of the whole copy class of `t`
+    fn set_class(&mut self, t: crate::iop::target::Target, v: F) { let r = self.map[self.tindex(t)]; self.values[r] = Some(v); }
+    /// change one cell only: the target leaves its copy class
+    fn set_cell(&mut self, t: crate::iop::target::Target, v: F) { let i = self.tindex(t); self.map[i] = self.values.len(); self.values.push(Some(v)); }
+    fn wire(&self, row: usize, column: usize) -> F { self.get(crate::iop::target::Target::wire(row, column)) }
+    fn public_inputs(&self) -> Vec<F> { self.data.prover_only.public_inputs.iter().map(|&t| self.get(t)).collect() }
+
+    /// does the assignment violate a gate relation, a copy constraint of the original circuit, or the public-input link?
+    fn violates(&self) -> bool {
+        use crate::plonk::vars::EvaluationVars;
+        let common = &self.data.common;
+        let n = common.degree();
+        let orig = &self.data.prover_only.representative_map;
+        // copy classes of the original circuit, over the cells of the trace (virtual targets are not part of the assignment the proof
+        // speaks about; the declared public inputs are tied to the trace by the PublicInputGate relation evaluated below)
+        let mut class_val: std::collections::HashMap<usize, F> = std::collections::HashMap::new();
+        for i in 0..n * common.config.num_wires {
+            if let Some(v) = self.values[self.map[i]] {
+                match class_val.get(&orig[i]) { Some(&u) => { if u != v { return true; } } None => { class_val.insert(orig[i], v); } }
+            }
+        }
+        // gate relations, row by row, with the constants of the built circuit
+        let consts: Vec<Vec<F>> = (0..common.num_constants).map(|k| self.data.prover_only.constants_sigmas_commitment.polynomials[k].clone().fft().values).collect();
+        let nsel = common.selectors_info.num_selectors();
+        let pih = <PC as GenericConfig<D>>::InnerHasher::hash_no_pad(&self.public_inputs());
+        for r in 0..n {
+            let lc: Vec<FE> = consts.iter().map(|c| c[r].into()).collect();
+            let lw: Vec<FE> = (0..common.config.num_wires).map(|c| self.wire(r, c).into()).collect();
+            for (i, g) in common.gates.iter().enumerate() {
+                let s = common.selectors_info.selector_indices[i];
+                if consts[s][r] != F::from_canonical_usize(i) { continue; }
+                let vars = EvaluationVars { local_constants: &lc[nsel + common.num_lookup_selectors..], local_wires: &lw, public_inputs_hash: &pih };
+                if g.0.eval_unfiltered(vars).iter().any(|c| !c.is_zero()) { return true; }
+            }
+        }
+        false
+    }
+
+    /// run the proving protocol on the assignment; "ACCEPTED" if the verifier accepts what comes back
+    fn outcome(&self) -> &'static str {
+        let pwit = crate::iop::witness::PartitionWitness { values: self.values.clone(), representative_map: &self.map, num_wires: self.data.common.config.num_wires, degree: self.data.common.degree() };
+        let r = catch_unwind(AssertUnwindSafe(|| crate::plonk::prover::prove_with_partition_witness(&self.data.prover_only, &self.data.common, pwit, &mut crate::util::timing::TimingTree::default())));
+        match r {
+            Ok(Ok(p)) => match catch_unwind(AssertUnwindSafe(|| self.data.verify(p))) { Ok(Ok(())) => "ACCEPTED", Ok(Err(_)) => "rejected", Err(_) => "verifier PANICKED" },
+            Ok(Err(_)) => "prover error",
+            Err(_) => "prover panicked",
+        }
+    }
+}
+
+fn c02_circuits() -> Vec<(&'static str, CircuitData<F, PC, D>, PartialWitness<F>)> {
+    use std::sync::Arc;
+    let mut out = Vec::new();
+    {   // arithmetic with public inputs, constants, a range check, a boolean, an equality and a zero assertion
+        let mut b = CircuitBuilder::<F, D>::new(CircuitConfig::standard_recursion_config());
+        let x = b.add_virtual_target(); let y = b.add_virtual_target(); let bit = b.add_virtual_bool_target_safe();
+        b.register_public_input(x);
+        let xy = b.mul(x, y); let s = b.add(xy, x); let c = b.constant(F::from_canonical_u64(21)); b.connect(s, c);
+        b.range_check(y, 8);
+        let sel = b.select(bit, x, y); b.register_public_input(sel);
+        let d = b.sub(sel, x); b.assert_zero(d);
+        let sq = b.square(xy); b.register_public_input(sq);
+        let mut pw = PartialWitness::new();
+        pw.set_target(x, F::from_canonical_u64(3)).unwrap(); pw.set_target(y, F::from_canonical_u64(6)).unwrap(); pw.set_bool_target(bit, true).unwrap();
+        out.push(("arithmetic/assertions", b.build::<PC>(), pw));
+    }
+    {   // hashing and exponentiation
+        let mut b = CircuitBuilder::<F, D>::new(CircuitConfig::standard_recursion_config());
+        let ins = b.add_virtual_targets(5);
+        let h = b.hash_n_to_hash_no_pad::<PoseidonHash>(ins.clone());
+        b.register_public_inputs(&h.elements);
+        let e = b.exp_u64(ins[0], 13); b.register_public_input(e);
+        let bits = b.split_le(ins[1], 6); let e2 = b.exp_from_bits(ins[2], bits.iter()); b.register_public_input(e2);
+        let mut pw = PartialWitness::new();
+        for (k, &t) in ins.iter().enumerate() { pw.set_target(t, F::from_canonical_u64(5 + 7 * k as u64)).unwrap(); }
+        out.push(("poseidon/exponentiation", b.build::<PC>(), pw));
+    }
+    {   // two lookup tables and a random access
+        let mut b = CircuitBuilder::<F, D>::new(CircuitConfig::standard_recursion_config());
+        let t0: Vec<(u16, u16)> = (0..16u16).map(|i| (i, 2 * i + 1)).collect();
+        let t1: Vec<(u16, u16)> = (0..20u16).map(|i| (i, 3 * i + 100)).collect();
+        let i0 = b.add_lookup_table_from_pairs(Arc::new(t0)); let i1 = b.add_lookup_table_from_pairs(Arc::new(t1));
+        let a = b.add_virtual_target(); let c = b.add_virtual_target();
+        b.register_public_input(a);
+        let o0 = b.add_lookup_from_index(a, i0); let o1 = b.add_lookup_from_index(c, i1); let o2 = b.add_lookup_from_index(a, i1);
+        let s = b.add(o0, o1); let s2 = b.add(s, o2); b.register_public_input(s2);
+        let v: Vec<_> = (0..4).map(|k| b.constant(F::from_canonical_u64(10 + k))).collect();
+        let idx = b.add_virtual_target(); let ra = b.random_access(idx, v); b.register_public_input(ra);
+        let mut pw = PartialWitness::new();
+        pw.set_target(a, F::from_canonical_u64(5)).unwrap(); pw.set_target(c, F::from_canonical_u64(7)).unwrap(); pw.set_target(idx, F::from_canonical_u64(2)).unwrap();
+        out.push(("lookups/random access", b.build::<PC>(), pw));
+    }
+    out
+}
+
+#[test]
+fn c02_witness_corruption() {
+    use crate::iop::target::Target;
+    let mut bad = Vec::new();
+    let mut cases = 0usize;
+    let mut skipped = 0usize;
+    for (tag, data, pw) in c02_circuits() {
+        let Some(base) = Adv::new(&data, pw) else { bad.push(format!("{tag}: honest witness generation failed")); continue; };
+        cases += 1;
+        if base.violates() { bad.push(format!("{tag}: harness oracle reports the honest assignment as violating (harness defect or generator defect)")); continue; }
+        let o = base.outcome();
+        if o != "ACCEPTED" { bad.push(format!("{tag}: honest assignment -> {o}")); continue; }
+        let n = data.common.degree();
+        let nw = data.common.config.num_wires;
+        let nr = data.common.config.num_routed_wires;
+        // cells: every row; a spread of routed and advice columns
+        let cols: Vec<usize> = vec![0, 1, 2, 3, 5, 7, 12, 30, 63, nr - 1, nr, nr + 1, nw - 1];
+        let mut budget = 0usize;
+        for r in 0..n {
+            for &c in &cols {
+                if c >= nw { continue; }
+                let t = Target::wire(r, c);
+                for (mode, delta) in [(0u8, F::ONE), (1u8, F::ONE), (0u8, F::from_canonical_u64(0xFFFF_FFFF_0000_0000))] {
+                    // limit the work: all rows for the first columns, a thinner sample afterwards
+                    if c > 3 && (r * 7 + c) % 5 != 0 { continue; }
+                    let mut a = Adv { data: &data, values: base.values.clone(), map: base.map.clone() };
+                    let v = a.get(t) + delta;
+                    if mode == 0 { a.set_cell(t, v); } else { a.set_class(t, v); }
+                    if !a.violates() { skipped += 1; continue; }
+                    cases += 1; budget += 1;
+                    let o = a.outcome();
+                    if o == "ACCEPTED" || o == "verifier PANICKED" { bad.push(format!("{tag}: wire (row {r}, column {c}) {} by +{}: violating assignment -> {o}", if mode == 0 { "cell changed" } else { "copy class changed" }, delta.to_canonical_u64())); }
+                }
+            }
+        }
+        // public inputs and the other virtual targets
+        let nvirt = data.prover_only.representative_map.len() - n * nw;
+        for k in 0..nvirt.min(40) {
+            let t = Target::VirtualTarget { index: k };
+            for mode in 0..2u8 {
+                let mut a = Adv { data: &data, values: base.values.clone(), map: base.map.clone() };
+                let v = a.get(t) + F::ONE;
+                if mode == 0 { a.set_cell(t, v); } else { a.set_class(t, v); }
+                if !a.violates() { skipped += 1; continue; }
+                cases += 1;
+                let o = a.outcome();
+                if o == "ACCEPTED" || o == "verifier PANICKED" { bad.push(format!("{tag}: virtual target {k} {}: violating assignment -> {o}", if mode == 0 { "cell changed" } else { "copy class changed" })); }
+            }
+        }
+        println!("c02_witness_corruption {tag}: degree {n}, {budget} violating wire corruptions tried, {skipped} non-violating skipped so far");
+    }
+    finish("c02_witness_corruption", cases, bad);
+}
+
+// a generator that does nothing (stands in for a generator a malicious prover has removed)
+#[derive(Debug)]
+struct IdleGen;
+impl<F2: RichField + Extendable<D2>, const D2: usize> crate::iop::generator::WitnessGenerator<F2, D2> for IdleGen {
+    fn id(&self) -> String { "IdleGen".to_string() }
+    fn watch_list(&self) -> Vec<crate::iop::target::Target> { vec![] }
+    fn run(&self, _w: &crate::iop::witness::PartitionWitness<F2>, _o: &mut crate::iop::generator::GeneratedValues<F2>) -> bool { true }
+    fn serialize(&self, _d: &mut Vec<u8>, _c: &crate::plonk::circuit_data::CommonCircuitData<F2, D2>) -> crate::util::serialization::IoResult<()> { Ok(()) }
+    fn deserialize(_s: &mut crate::util::serialization::Buffer, _c: &crate::plonk::circuit_data::CommonCircuitData<F2, D2>) -> crate::util::serialization::IoResult<Self> { Ok(IdleGen) }
+}
+
+// C08: lookups are provable exactly for pairs of the designated table
+#[test]
+fn c08_lookups() {
+    use std::sync::Arc;
+    let mut bad = Vec::new();
+    let mut cases = 0usize;
+    // (table sizes, lookups per table); LookupGate holds 40 lookups and LookupTableGate 26 entries per row in the standard configuration
+    let plans: Vec<(Vec<usize>, Vec<usize>)> = vec![
+        (vec![1], vec![1]), (vec![2], vec![3]), (vec![26], vec![40]), (vec![27], vec![41]), (vec![53], vec![80]), (vec![16], vec![39]),
+        (vec![16, 20], vec![1, 1]), (vec![16, 20], vec![40, 3]), (vec![5, 26, 30], vec![2, 80, 1]), (vec![52, 3], vec![7, 120]), (vec![16, 16], vec![5, 5]),
+    ];
+    for (pi, (sizes, nlook)) in plans.iter().enumerate() {
+        let tag = format!("tables of sizes {sizes:?} with {nlook:?} lookups");
+        // table t: key i*(t+2)+t  ->  value with duplicates, 16-bit
+        let tables: Vec<Vec<(u16, u16)>> = sizes.iter().enumerate().map(|(t, &sz)| (0..sz).map(|i| ((i * (t + 2) + t) as u16, (((i * 37 + 11 * t + pi) % 23) as u16) * 1000 + t as u16)).collect()).collect();
+        let built = catch_unwind(AssertUnwindSafe(|| {
+            let mut b = CircuitBuilder::<F, D>::new(CircuitConfig::standard_recursion_config());
+            let idxs: Vec<usize> = tables.iter().map(|t| b.add_lookup_table_from_pairs(Arc::new(t.clone()))).collect();
+            let mut ins = Vec::new(); let mut outs = Vec::new();
+            for (t, &nl) in nlook.iter().enumerate() { for j in 0..nl {
+                let x = b.add_virtual_target(); let o = b.add_lookup_from_index(x, idxs[t]); b.register_public_input(o);
+                // heavy repetition for odd plans, spread otherwise; the last entries of large tables stay unused
+                let e = if pi % 2 == 1 { (j / 9) % sizes[t] } else { (j * 5 + 1) % sizes[t] };
+                ins.push((x, t, e)); outs.push(o);
+            } }
+            (b.build::<PC>(), ins, outs)
+        }));
+        let Ok((data, ins, outs)) = built else { bad.push(format!("{tag}: building the circuit PANICKED")); continue; };
+        let mut pw = PartialWitness::new();
+        for &(x, t, e) in &ins { pw.set_target(x, F::from_canonical_u64(tables[t][e].0 as u64)).unwrap(); }
+        cases += 1;
+        let Some(base) = Adv::new(&data, pw) else { bad.push(format!("{tag}: witness generation for member inputs failed")); continue; };
+        for (k, &(_, t, e)) in ins.iter().enumerate() { if base.get(outs[k]) != F::from_canonical_u64(tables[t][e].1 as u64) { bad.push(format!("{tag}: lookup {k} outputs {} instead of the table value {}", base.get(outs[k]), tables[t][e].1)); break; } }
+        let o = base.outcome();
+        if o != "ACCEPTED" { bad.push(format!("{tag}: all lookups are table entries -> {o}")); continue; }
+        // corrupt one looked-up pair at a time (first, middle, last lookup of every table; output and input side)
+        let mut start = 0usize;
+        for (t, &nl) in nlook.iter().enumerate() {
+            for j in [0usize, nl / 2, nl - 1] {
+                let k = start + j;
+                let (x, _, e) = ins[k];
+                let (key, val) = tables[t][e];
+                // output candidates: off by one, the value another table gives for the same key, a value the same table gives for another key
+                let mut wrong_outs: Vec<u64> = vec![val as u64 + 1];
+                for (t2, tb) in tables.iter().enumerate() { if t2 != t { if let Some(p) = tb.iter().find(|p| p.0 == key) { wrong_outs.push(p.1 as u64); } } }
+                if let Some(p) = tables[t].iter().find(|p| p.1 != val) { wrong_outs.push(p.1 as u64); }
+                for w in wrong_outs {
+                    if tables[t].iter().any(|p| p.0 == key && p.1 as u64 == w) { continue; }
+                    let mut a = Adv { data: &data, values: base.values.clone(), map: base.map.clone() };
+                    a.set_class(outs[k], F::from_canonical_u64(w));
+                    cases += 1;
+                    let o = a.outcome();
+                    if o == "ACCEPTED" || o == "verifier PANICKED" { bad.push(format!("{tag}: lookup {j} of table {t}: pair ({key}, {w}) is not in the table -> {o}")); }
+                }
+                // input side: a key of another table / a non-key, output unchanged
+                let mut wrong_ins: Vec<u64> = vec![60000];
+                for (t2, tb) in tables.iter().enumerate() { if t2 != t { if let Some(p) = tb.iter().find(|p| !tables[t].iter().any(|q| q.0 == p.0)) { wrong_ins.push(p.0 as u64); } } }
+                if let Some(p) = tables[t].iter().find(|p| p.1 != val) { wrong_ins.push(p.0 as u64); }
+                for w in wrong_ins {
+                    if tables[t].iter().any(|p| p.0 as u64 == w && p.1 == val) { continue; }
+                    let mut a = Adv { data: &data, values: base.values.clone(), map: base.map.clone() };
+                    a.set_class(x, F::from_canonical_u64(w));
+                    cases += 1;
+                    let o = a.outcome();
+                    if o == "ACCEPTED" || o == "verifier PANICKED" { bad.push(format!("{tag}: lookup {j} of table {t}: pair ({w}, {val}) is not in the table -> {o}")); }
+                }
+            }
+            start += nl;
+        }
+    }
+    // the same target looked up in two tables gets each table's own value
+    {
+        let mut b = CircuitBuilder::<F, D>::new(CircuitConfig::standard_recursion_config());
+        let ta: Vec<(u16, u16)> = (0..8u16).map(|i| (i, 100 + i)).collect();
+        let tb: Vec<(u16, u16)> = (0..8u16).map(|i| (i, 500 + 2 * i)).collect();
+        let ia = b.add_lookup_table_from_pairs(Arc::new(ta)); let ib = b.add_lookup_table_from_pairs(Arc::new(tb));
+        let x = b.add_virtual_target();
+        let oa = b.add_lookup_from_index(x, ia); let ob = b.add_lookup_from_index(x, ib); let oa2 = b.add_lookup_from_index(x, ia);
+        b.register_public_input(oa); b.register_public_input(ob); b.register_public_input(oa2);
+        let data = b.build::<PC>();
+        let mut pw = PartialWitness::new(); pw.set_target(x, F::from_canonical_u64(5)).unwrap();
+        cases += 1;
+        match catch_unwind(AssertUnwindSafe(|| data.prove(pw))) {
+            Ok(Ok(p)) => { if p.public_inputs != vec![F::from_canonical_u64(105), F::from_canonical_u64(510), F::from_canonical_u64(105)] { bad.push(format!("one target looked up in tables A, B, A yields {:?} instead of [105, 510, 105]", p.public_inputs)); } else if data.verify(p).is_err() { bad.push("one target looked up in two tables: proof rejected".into()); } }
+            _ => bad.push("one target looked up in two tables: not provable".into()),
+        }
+    }
+    // a prover that fills the lookup rows itself and puts the multiplicity on an UNUSED slot of a partially filled table row:
+    // whatever pair that slot holds must be an entry of the table, or the proof must not be accepted
+    for size in [1usize, 2, 3, 27, 30, 53] {
+        for variant in 0..2 {
+            // variant 0: keys start at 1 (so (0,0) is not an entry); variant 1: keys start at 0
+            let table: Vec<(u16, u16)> = (0..size).map(|i| ((i + 1 - variant) as u16, (10 * (i + 1)) as u16)).collect();
+            let tag = format!("table {:?}.. of size {size}, multiplicity on an unused slot", &table[..size.min(2)]);
+            let mut b = CircuitBuilder::<F, D>::new(CircuitConfig::standard_recursion_config());
+            let ti = b.add_lookup_table_from_pairs(Arc::new(table.clone()));
+            let x = b.add_virtual_target(); let o = b.add_lookup_from_index(x, ti);
+            b.register_public_input(x); b.register_public_input(o);
+            let mut data = b.build::<PC>();
+            let lw = data.prover_only.lookup_rows[0].clone();
+            let s_unused = size % 26;
+            // pass 1 (honest generators): read what the unused slot holds
+            let mut pw = PartialWitness::new(); pw.set_target(x, F::from_canonical_u64(table[0].0 as u64)).unwrap();
+            let (pr, po) = { let Some(base) = Adv::new(&data, pw) else { bad.push(format!("{tag}: witness generation failed")); continue; };
+                (base.wire(lw.last_lut_gate, 3 * s_unused), base.wire(lw.last_lut_gate, 3 * s_unused + 1)) };
+            let member = table.iter().any(|p| F::from_canonical_u64(p.0 as u64) == pr && F::from_canonical_u64(p.1 as u64) == po);
+            if member { continue; }   // the slot holds a table entry: looking it up is legitimate
+            // pass 2: the lookup generator is replaced by an idle one, the prover does the bookkeeping by hand
+            for g in data.prover_only.generators.iter_mut() { if g.0.id() == "LookupGenerator" { *g = crate::iop::generator::WitnessGeneratorRef::new(IdleGen); } }
+            for l in data.prover_only.lut_to_lookups.iter_mut() { l.clear(); }
+            let mut pw = PartialWitness::new();
+            let mut nslots = 0u64;
+            let mut ok = true;
+            for r in lw.last_lu_gate..lw.last_lut_gate { for j in 0..40 {
+                ok &= pw.set_target(crate::iop::target::Target::wire(r, 2 * j), pr).is_ok(); ok &= pw.set_target(crate::iop::target::Target::wire(r, 2 * j + 1), po).is_ok(); nslots += 1; } }
+            ok &= pw.set_target(crate::iop::target::Target::wire(lw.last_lut_gate, 3 * s_unused + 2), F::from_canonical_u64(nslots)).is_ok();
+            if !ok { continue; }
+            cases += 1;
+            let oc = match catch_unwind(AssertUnwindSafe(|| data.prove(pw))) {
+                Ok(Ok(p)) => match catch_unwind(AssertUnwindSafe(|| data.verify(p))) { Ok(Ok(())) => "ACCEPTED", Ok(Err(_)) => "rejected", Err(_) => "verifier PANICKED" },
+                Ok(Err(_)) => "prover error", Err(_) => "prover panicked" };
+            if oc == "ACCEPTED" || oc == "verifier PANICKED" { bad.push(format!("{tag}: looked-up pair ({pr}, {po}) is not in the table -> {oc}")); }
+        }
+    }
+    finish("c08_lookups", cases, bad);
+}
